@@ -291,4 +291,34 @@ Proof. exact (reader_reports interval evs st). Qed.
 Theorem upload_any_clock total interval evs st :
   subseq (run_writer total interval st evs) (running (w_written st) (map fst evs)) = true.
 Proof. exact (writer_subseq total interval evs st). Qed.
+
+(* ---------- int64 ---------- *)
+(* Go's counters are int64; the model counts in Z.  As long as fewer than 2^63 bytes are moved in
+   total, every value the Go code computes (the running count after each call, hence every
+   reported count) lies in [0, 2^63): no wrap-around, the model is exact. *)
+
+Lemma incr_above_forall lo l : incr_above lo l -> Forall (fun r => lo < r) l.
+Proof.
+  revert lo. induction l as [|x l IH]; intros lo H; constructor.
+  - now destruct H.
+  - destruct H as (A & B). eapply Forall_impl; [|apply (IH x B)]. cbn. intros; lia.
+Qed.
+
+Theorem upload_counts_fit_int64 total interval evs st :
+  0 <= w_written st -> w_written st + written_total evs < 2 ^ 63 ->
+  Forall (fun r => 0 < r < 2 ^ 63) (run_writer total interval st evs).
+Proof.
+  intros H0 H1. destruct (writer_reports total interval evs st) as (A & B).
+  apply incr_above_forall in A. rewrite Forall_forall in *. intros r Hr.
+  specialize (A r Hr). specialize (B r Hr). cbn in B. lia.
+Qed.
+
+Theorem download_counts_fit_int64 interval evs st :
+  0 <= r_lastread st <= r_read st -> r_read st + read_total evs < 2 ^ 63 ->
+  Forall (fun r => 0 < r < 2 ^ 63) (run_reader interval st evs).
+Proof.
+  intros H0 H1. destruct (reader_reports interval evs st) as (A & B); [lia|].
+  apply incr_above_forall in A. rewrite Forall_forall in *. intros r Hr.
+  specialize (A r Hr). specialize (B r Hr). cbn in B. lia.
+Qed.
 Close Scope Z_scope.
